@@ -133,6 +133,11 @@ func (s *gracefulSrv) Serve(net.Listener) error {
 func (s *gracefulSrv) Stop() error {
 	trace("stop(%d,%d)", s.k, s.n)
 	s.once.Do(func() { close(s.stop) })
+	if injected {
+		// (second-signal scenario) a server stop takes a moment, as a graceful one does: a second handler that got past the
+		// once-only guard has the time to show what it does
+		time.Sleep(40 * time.Millisecond)
+	}
 	first := false
 	s.gateOnce.Do(func() { first = true })
 	if first && ovSignalled && fmt.Sprint(s.k) == ovOld && s.n == 1 {
